@@ -144,14 +144,26 @@ func c06Gen(depth2 bool) *symir.Gen {
 	g.Width = 2
 	g.Nullable = true
 	g.Required = true
+	if v.Tier() > 0 {
+		// thorough: the same depth, wider — structs of up to 3 fields, unions of up to 3 branches, one more
+		// scalar kind and field name. (Full depth 2 squares the number of shapes and does not complete; depth is
+		// covered by the spine, union-of-structs, intersection and constants families instead.)
+		g.Width = 3
+		g.UnionWidth = 3
+		g.UnionTailLeaves = symir.KScalar | symir.KNullScalar | symir.KRef
+		g.Scalars = []string{"string", "int64", "bool"}
+		g.Fields = []string{"a", "type", "b"}
+	}
 	return g
 }
 
 // c06Input: object Foo of depth d (shape forked), object Bar a struct with one scalar
 // field and a constant discriminator candidate; references may name either.
-func c06Input(g *symir.Gen, d int) ast.Schemas {
+func c06Input(g *symir.Gen, d int) ast.Schemas { return c06InputWith(g.Type(d)) }
+
+func c06InputWith(fooType ast.Type) ast.Schemas {
 	p := ast.NewSchema("p", ast.SchemaMeta{})
-	p.AddObject(ast.NewObject("p", "Foo", g.Type(d)))
+	p.AddObject(ast.NewObject("p", "Foo", fooType))
 	p.AddObject(ast.NewObject("p", "Bar", ast.NewStruct(
 		ast.NewStructField("type", ast.NewScalar(ast.KindString, ast.Value("bar")), ast.Required()),
 		ast.NewStructField("x", ast.String()),
@@ -179,12 +191,7 @@ func c06Run(lang string, depth int) {
 	nfSchemas(out, nfByLang[lang])
 }
 
-func c06Depth() int {
-	if v.Tier() > 0 {
-		return 2
-	}
-	return 1
-}
+func c06Depth() int { return 1 }
 
 func VerifC06Go()         { c06Run("go", c06Depth()) }
 func VerifC06Java()       { c06Run("java", c06Depth()) }
@@ -196,11 +203,13 @@ func VerifC06TypeScript() { c06Run("typescript", c06Depth()) }
 // three levels on one spine, e.g. disjunction(array(disjunction(..))).
 func c06Spine(g *symir.Gen, d int) ast.Type {
 	if d == 0 {
-		switch v.Choose(3) {
+		switch v.Choose(4) {
 		case 0:
 			return ast.String()
 		case 1:
 			return ast.NewRef("p", "Bar")
+		case 2:
+			return ast.Null()
 		default:
 			return g.Enum()
 		}
@@ -216,8 +225,9 @@ func c06Spine(g *symir.Gen, d int) ast.Type {
 		f.Required = v.Bool("required")
 		return ast.NewStruct(f)
 	default:
-		other := ast.Type(ast.NewScalar(ast.KindInt64))
-		if v.Choose(2) == 1 {
+		// the second branch differs at every level, so that no union lists (after flattening) the same type twice
+		other := ast.Type(ast.NewScalar([]ast.ScalarKind{ast.KindInt64, ast.KindBool, ast.KindFloat64}[d%3]))
+		if d == 1 && v.Choose(2) == 1 {
 			other = ast.NewRef("p", "Baz")
 		}
 		return ast.NewDisjunction(ast.Types{inner, other})
@@ -281,7 +291,9 @@ func VerifC07FrozenTypeScript() { c07Frozen("typescript") }
 
 // ---------------------------------------------------------------- C05 (chains): a language's chain never turns a resolving reference into a dangling one
 
-func c05Chain(lang string) {
+func c05Chain(lang string) { c05ChainFamily(lang, 0) }
+
+func c05ChainFamily(lang string, family int) {
 	g := c06Gen(false)
 	g.Names = []string{"Bar", "Baz"}
 	g.Nullable, g.Required = false, false
@@ -289,7 +301,12 @@ func c05Chain(lang string) {
 	// aliases: Al -> string, Al2 -> Al (an alias of an alias), AlArr -> []string
 	g.RefNames = []string{"Bar", "Baz", "Al", "Al2", "AlArr"}
 	g.ConstRefNames = []string{"En"} // constant references denote members of an enum object
-	in := c06Input(g, c06Depth())
+	var in ast.Schemas
+	if family == 1 {
+		in = c06InputWith(c06StructUnion(g))
+	} else {
+		in = c06Input(g, c06Depth())
+	}
 	in[0].AddObject(ast.NewObject("p", "En", ast.NewEnum([]ast.EnumValue{{Type: ast.String(), Name: "x", Value: "x"}, {Type: ast.String(), Name: "y", Value: "y"}})))
 	in[0].AddObject(ast.NewObject("p", "Al", ast.String()))
 	in[0].AddObject(ast.NewObject("p", "Al2", ast.NewRef("p", "Al")))
